@@ -12,7 +12,10 @@
 (* state machine (XStep); TLC checks that they agree (Aggregators_Gen).           *)
 (*   numerical         : decimal number -> count, exact sum and sum of squares    *)
 (*                       (BigInt, in units of 10^-3), bag of values; mean / sample *)
-(*                       variance are exact rationals, order statistics ranks.    *)
+(*                       variance are exact rationals, order statistics ranks;    *)
+(*                       values up to 10^11 are folded relative to a base (shift  *)
+(*                       law: variance invariant, everything else shifts).        *)
+(* Accessor calls are stuttering steps (AObserve): no read may change a later one.*)
 (*   accumulating group: left fold of accumulator expressions over the rows.      *)
 EXTENDS Bytes, Rat, TLC
 
@@ -118,59 +121,138 @@ TblTrim(s, p) ==
 TblTrimmed(s, p) == {q \in DOMAIN s.cell : PredHolds(p, q[2], q[1], s.cell[q])}
 
 \* ------------------------------------------------------------- numerical
-\* Values are decimal numbers with at most 3 fraction digits, held as integers in
-\* units of 10^-3 ("milli").  Classes of a sample text:
-\*   "num" : [sign] digits [ "." [digits] ] | [sign] "." digits     (<= 6 integer digits)
+\* Values are decimal numbers with at most 3 fraction digits, held in units of 10^-3 ("milli").
+\* Classes of a sample text:
+\*   "num" : [sign] digits [ "." [digits] ] | [sign] "." digits     (<= 11 integer digits)
 \*   "err" : empty, or contains a byte that occurs in no Go float literal
 \*   "out" : anything else (exponents, hex floats, inf, nan, >3 decimals...) - outside the domain
+\*
+\* Large values (epoch seconds, byte offsets, ids ~ 10^9..10^10) do not fit TLC's 32-bit
+\* integers.  A text is therefore read into an exact BigInt (NumLex), and a history is folded
+\* RELATIVE TO A BASE B (BigInt, milli units): the state holds the deltas d = value - B, which
+\* must be small (|d| < 10^9).  Count, order statistics, min, max and mean of the full values
+\* are those of the deltas shifted by B; the variance is that of the deltas (ShiftLawAt below,
+\* checked by TLC with exact arithmetic against the moments of the full values).  B = 0 gives the
+\* plain reading.
 FloatByte(c) == IsDigit(c) \/ c \in {43, 45, 46, 95}
                 \/ LowerC(c) \in {97, 98, 99, 100, 101, 102, 105, 110, 112, 116, 120, 121}
-NumParse(el) ==
+\* BigInt of a digit string: limbs of 4 digits from the right
+RECURSIVE MagOfDigits(_)
+MagOfDigits(ds) ==
+  IF ds = <<>> THEN <<>>
+  ELSE LET k == IF Len(ds) >= 4 THEN 4 ELSE Len(ds)
+       IN <<DigitsVal(SubSeq(ds, Len(ds) - k + 1, Len(ds)), 0)>> \o MagOfDigits(SubSeq(ds, 1, Len(ds) - k))
+BOfDigits(ds) == BMk(1, MagNorm(MagOfDigits(ds)))
+\* decimal digits of a magnitude (most significant limb unpadded)
+Pad4(n) == <<48 + (n \div 1000), 48 + ((n \div 100) % 10), 48 + ((n \div 10) % 10), 48 + (n % 10)>>
+MagDigits(m) ==
+  IF m = <<>> THEN <<48>>
+  ELSE NatDigits(m[Len(m)]) \o Flatten([i \in 1..(Len(m) - 1) |-> Pad4(m[Len(m) - i])])
+\* a BigInt that fits a TLC integer with room to spare: |b| < 10^9
+SmallB(b) == Len(b.m) <= 2 \/ (Len(b.m) = 3 /\ b.m[3] <= 9)
+\* [sign] digits, in UNITS -> BigInt in milli units (how a base is written in vectors and traces)
+BaseOfText(t) ==
+  LET neg == t # <<>> /\ t[1] = 45
+      ds  == IF neg THEN Tail(t) ELSE t
+      b   == BOfDigits(ds \o <<48, 48, 48>>)
+  IN IF neg THEN BNeg(b) ELSE b
+\* canonical decimal text of a milli value: integer part, then "." and 3 digits unless they are 000
+NumText(b) ==
+  LET d0 == MagDigits(b.m)
+      d  == [i \in 1..(4 - Len(d0)) |-> 48] \o d0           \* at least 4 digits
+      ip == SubSeq(d, 1, Len(d) - 3)
+      fp == SubSeq(d, Len(d) - 2, Len(d))
+  IN (IF b.s < 0 THEN <<45>> ELSE <<>>) \o ip \o (IF fp = <<48, 48, 48>> THEN <<>> ELSE <<46>> \o fp)
+
+\* lexical class and exact value of a sample text
+NumLex(el) ==
   LET neg  == el # <<>> /\ el[1] = 45
       body == IF el # <<>> /\ el[1] \in {43, 45} THEN Tail(el) ELSE el
       dot  == IndexByte(body, 46)
       ip   == IF dot = 0 THEN body ELSE SubSeq(body, 1, dot - 1)
       fp   == IF dot = 0 THEN <<>> ELSE DropFirst(body, dot)
       digs(x) == \A i \in 1..Len(x) : IsDigit(x[i])
-      fv   == DigitsVal(fp \o [i \in 1..(3 - Len(fp)) |-> 48], 0)
-      v    == DigitsVal(ip, 0) * 1000 + fv
-  IN IF el = <<>> \/ \E i \in 1..Len(el) : ~FloatByte(el[i]) THEN [c |-> "err", v |-> 0]
-     ELSE IF digs(ip) /\ digs(fp) /\ Len(ip) + Len(fp) >= 1 /\ Len(ip) <= 6 /\ Len(fp) <= 3
-          THEN [c |-> "num", v |-> IF neg THEN 0 - v ELSE v]
+      v    == BOfDigits(ip \o fp \o [i \in 1..(3 - Len(fp)) |-> 48])      \* milli units: 3 fraction digits
+  IN IF el = <<>> \/ \E i \in 1..Len(el) : ~FloatByte(el[i]) THEN [c |-> "err", b |-> BZero]
+     ELSE IF digs(ip) /\ digs(fp) /\ Len(ip) + Len(fp) >= 1 /\ Len(ip) <= 11 /\ Len(fp) <= 3
+          THEN [c |-> "num", b |-> IF neg THEN BNeg(v) ELSE v]
+     ELSE [c |-> "out", b |-> BZero]
+\* the sample relative to base B: "num" only if the delta is small
+NumParseB(el, B) ==
+  LET x == NumLex(el)
+      d == BSub(x.b, B)
+  IN IF x.c # "num" THEN [c |-> x.c, v |-> 0]
+     ELSE IF SmallB(d) THEN [c |-> "num", v |-> BToInt(d)]
      ELSE [c |-> "out", v |-> 0]
+NumParse(el) == NumParseB(el, BZero)
 
-\* state: [n, s1 = sum v (BigInt), s2 = sum v^2 (BigInt), bag : v -> multiplicity, err]
+\* state: [n, s1 = sum d (BigInt), s2 = sum d^2 (BigInt), bag : d -> multiplicity, err]
 NumInit == [n |-> 0, s1 |-> BZero, s2 |-> BZero, bag |-> EmptyFn, err |-> 0]
 NumAdd(s, v) == [n |-> s.n + 1, s1 |-> BAdd(s.s1, BI(v)), s2 |-> BAdd(s.s2, BSq(BI(v))),
                  bag |-> Upd(s.bag, v, Get0(s.bag, v) + 1), err |-> s.err]
-NumStep(s, el) ==
-  LET d == NumParse(el) IN
+NumStepB(s, el, B) ==
+  LET d == NumParseB(el, B) IN
   IF d.c = "num" THEN NumAdd(s, d.v) ELSE IF d.c = "err" THEN [s EXCEPT !.err = s.err + 1] ELSE s
-NumFold(h) ==
-  LET D == [i \in 1..Len(h) |-> NumParse(h[i])]
+NumStep(s, el) == NumStepB(s, el, BZero)
+NumFoldB(h, B) ==
+  LET D == [i \in 1..Len(h) |-> NumParseB(h[i], B)]
       N == {i \in 1..Len(h) : D[i].c = "num"}
       V == [i \in 1..Len(h) |-> D[i].v]
       Q == [i \in 1..Len(h) |-> D[i].v * D[i].v]
-  IN [n |-> Cardinality(N), s1 |-> BI(SumF(N, V)), s2 |-> BI(SumF(N, Q)),   \* small values only
+  IN [n |-> Cardinality(N), s1 |-> BI(SumF(N, V)), s2 |-> BI(SumF(N, Q)),   \* small deltas only
       bag |-> [v \in {V[i] : i \in N} |-> Cardinality({i \in N : V[i] = v})],
       err |-> Cardinality({i \in 1..Len(h) : D[i].c = "err"})]
+NumFold(h) == NumFoldB(h, BZero)
 
 NumMin(s) == MinOf(DOMAIN s.bag)
 NumMax(s) == MaxOf(DOMAIN s.bag)
 \* mean = s1 / n ; sample variance = (n*s2 - s1^2) / (n*(n-1))    (exact rationals, milli units)
 NumMean(s) == RatOf(s.s1, BI(s.n))
-NumVar(s)  == RatOf(BSub(BMul(BI(s.n), s.s2), BSq(s.s1)), BMul(BI(s.n), BI(s.n - 1)))
-\* a reported mean (rounded to milli units) is acceptable within one unit (10^-3 absolute)
-MeanOK(s, mean3) == BLe(BAbs(BSub(BMul(BI(mean3), BI(s.n)), s.s1)), BI(s.n))
+NumVarNum(n, s1, s2) == BSub(BMul(BI(n), s2), BSq(s1))
+NumVar(s)  == RatOf(NumVarNum(s.n, s.s1, s.s2), BMul(BI(s.n), BI(s.n - 1)))
+
+\* ---- shift law ------------------------------------------------------------------
+\* exact first and second moments of the FULL values x_i = B + d_i, from the delta state
+FullS1(s, B) == BAdd(s.s1, BMul(BI(s.n), B))
+FullS2(s, B) == BAdd(s.s2, BAdd(BMul(BMul(BI(2), B), s.s1), BMul(BI(s.n), BSq(B))))
+\* the same moments accumulated directly from the texts, without any base
+RECURSIVE BigMoments(_)
+BigMoments(h) ==
+  IF h = <<>> THEN [n |-> 0, s1 |-> BZero, s2 |-> BZero]
+  ELSE LET m == BigMoments(Tail(h))
+           x == NumLex(h[1])
+       IN IF x.c = "num" THEN [n |-> m.n + 1, s1 |-> BAdd(m.s1, x.b), s2 |-> BAdd(m.s2, BSq(x.b))] ELSE m
+\* variance is shift invariant and the mean shifts by B: the delta state says everything about
+\* the full sample list.  (n*S2 - S1^2 is the variance numerator; the denominators are equal.)
+ShiftLawAt(s, B) ==
+  /\ BEq(NumVarNum(s.n, FullS1(s, B), FullS2(s, B)), NumVarNum(s.n, s.s1, s.s2))
+  /\ s.n >= 1 => RCmp(RSub(RatOf(FullS1(s, B), BI(s.n)), NumMean(s)), RatOf(B, BI(1))) = 0
+\* the history h (texts) has, folded directly, the moments the delta state claims
+FullMomentsOK(s, B, h) ==
+  LET m == BigMoments(h)
+  IN m.n = s.n /\ BEq(m.s1, FullS1(s, B)) /\ BEq(m.s2, FullS2(s, B))
+     /\ BEq(NumVarNum(m.n, m.s1, m.s2), NumVarNum(s.n, s.s1, s.s2))
+
+\* ---- tolerances -------------------------------------------------------------------
+\* Floating point works with a relative precision of 2^-52, so any summation over n values
+\* of magnitude |B| may be off by about n*|B|*2^-52 in absolute terms.  The tolerances below
+\* grant that on top of their absolute part: slack = floor(n * (floor(|B| / 10^8) + 1) / 10^7)
+\* milli units ( ~ 4 * n*|B|*2^-52 ; 0 when B = 0, and e.g. for |B| = 1.7*10^9 units while n < 588).
+NumSlack(n, B) == (n * (MagToNat(SubSeq(B.m, 3, Len(B.m))) + 1)) \div 10000000
+\* a reported mean (rounded to milli units, relative to the base) is acceptable within
+\* 1 + slack units (10^-3 absolute)
+MeanOKs(s, mean3, slack) == BLe(BAbs(BSub(BMul(BI(mean3), BI(s.n)), s.s1)), BI(s.n * (1 + slack)))
+MeanOK(s, mean3) == MeanOKs(s, mean3, 0)
 \* a reported sample standard deviation sd3 (milli units) is acceptable within
-\* t = 1 + sd3 / 10^6 units (10^-3 absolute + 10^-6 relative): (sd3-t)^2 <= var <= (sd3+t)^2
-SdOK(s, sd3) ==
-  LET t  == 1 + sd3 \div 1000000
+\* t = 1 + slack + sd3 / 10^6 units (10^-3 absolute + 10^-6 relative): (sd3-t)^2 <= var <= (sd3+t)^2
+SdOKv(var, sd3, slack) ==          \* var = NumVar(s), computed once by the caller
+  LET t  == 1 + slack + sd3 \div 1000000
       lo == IF sd3 - t < 0 THEN 0 ELSE sd3 - t
-      var == NumVar(s)
   IN /\ sd3 >= 0
      /\ RLe(RatOf(BSq(BI(lo)), BI(1)), var)
      /\ RLe(var, RatOf(BSq(BI(sd3 + t)), BI(1)))
+SdOKs(s, sd3, slack) == SdOKv(NumVar(s), sd3, slack)
+SdOK(s, sd3) == SdOKs(s, sd3, 0)
 
 \* order statistics.  The ordered series is ascending, or descending when `rev`.
 \* x stands at 0-based position idx of the ordered series:
@@ -283,22 +365,31 @@ ASampleCtr(el) == ctr' = CtrStep(ctr, el) /\ UNCHANGED <<sub, tbl, num, acc>>
 ASampleSub(el) == sub' = SubStep(sub, el) /\ UNCHANGED <<ctr, tbl, num, acc>>
 ASampleTbl(el) == tbl' = TblStep(tbl, el) /\ UNCHANGED <<ctr, sub, num, acc>>
 ATrimTbl(p)    == tbl' = TblTrim(tbl, p) /\ UNCHANGED <<ctr, sub, num, acc>>
-ASampleNum(el) == num' = NumStep(num, el) /\ UNCHANGED <<ctr, sub, tbl, acc>>
+ASampleNumB(el, B) == num' = NumStepB(num, el, B) /\ UNCHANGED <<ctr, sub, tbl, acc>>
+ASampleNum(el) == ASampleNumB(el, BZero)
 ASampleAcc(el) == acc' = AccStep(AccCfg, acc, el) /\ UNCHANGED <<ctr, sub, tbl, num>>
+\* Reading an aggregator - any public accessor, any number of times, at any point of a history -
+\* is a stuttering step: it changes nothing, so what ANY later accessor call returns is a function
+\* of the samples and trims alone, never of which accessors were called before or in between
+\* (no memoised value may survive a mutator).  The implementation-shaped layer and the bindings
+\* make the step explicit and interleave it with Sample / Trim in every order.
+AObserve == UNCHANGED avars
 ANext ==
   \/ \E el \in Elems : ASampleCtr(el) \/ ASampleSub(el) \/ ASampleTbl(el) \/ ASampleNum(el) \/ ASampleAcc(el)
   \/ \E p \in Preds : ATrimTbl(p)
+  \/ AObserve
 ASpec == AInit /\ [][ANext]_avars
 
 \* ---- laws of the abstract machine (state invariants; TLC, B3) ------------------
 \* sample order does not matter for count-style aggregators: any two samples commute
-Commute ==
+CommuteAt(B) ==
   LET all0 == ctr = CtrInit /\ sub = GridInit /\ tbl = GridInit /\ num = NumInit IN
   \A e1 \in Elems, e2 \in Elems : BytesLess(e1, e2) =>      \* unordered pairs
     /\ (all0 \/ ctr # CtrInit) => CtrStep(CtrStep(ctr, e1), e2) = CtrStep(CtrStep(ctr, e2), e1)
     /\ (all0 \/ sub # GridInit) => SubStep(SubStep(sub, e1), e2) = SubStep(SubStep(sub, e2), e1)
     /\ (all0 \/ tbl # GridInit) => TblStep(TblStep(tbl, e1), e2) = TblStep(TblStep(tbl, e2), e1)
-    /\ (all0 \/ num # NumInit) => NumStep(NumStep(num, e1), e2) = NumStep(NumStep(num, e2), e1)
+    /\ (all0 \/ num # NumInit) => NumStepB(NumStepB(num, e1, B), e2, B) = NumStepB(NumStepB(num, e2, B), e1, B)
+Commute == CommuteAt(BZero)
 \* totals are the sums of their cells
 TotalsOK ==
   /\ GridSum(tbl) = SumF(GridAs(tbl), [a \in GridAs(tbl) |-> GridRowSum(tbl, a)])
